@@ -16,3 +16,4 @@ open UtilModel UtilModel.CContainer
 #print axioms UtilModel.CContainer.C15_obs
 #print axioms UtilModel.C15_accepted
 #print axioms UtilModel.acceptsH_sound
+#print axioms UtilModel.complete_ccontainer
